@@ -134,7 +134,10 @@ def call_repo(I, fv, args, kwargs, st, ctx):
     qual = fv.data.get("qual") or fd.name
     # 1. sidecar contract for the callee (modular verification)
     ch = I.contracts.get(qual)
-    if ch is not None and not ctx.get("verifying") == qual:
+    # (the function under verification runs its real body; a RECURSIVE call of it is replaced by the
+    # contract when the contract module asked for that — I.recursive_contracts)
+    if ch is not None and (not ctx.get("verifying") == qual
+                           or (st.depth > 0 and qual in getattr(I, "recursive_contracts", ()))):
         I.stats["contract_calls"].add(qual)
         r = ch(I, st, fv, args, kwargs, ctx)
         if r is not None:
